@@ -14,7 +14,11 @@ def prebuild():
 
 def run(tier):
     os.environ.setdefault('VERIF_BUDGET_S', '300' if tier == 'quick' else '3000')  # a cap that is hit ends the run with exhaustive:false, exit 0
-    apidrive.run_seq('C10', tier, 'TestVerifC10', ASSUME, RULE)
+    variants = None
+    if tier == 'thorough':
+        # the legacy JSON encoding (messages, store values, snapshots) at the quick depth, then protobuf one deeper
+        variants = [('json encoding', {'VERIF_ENCODING': 'json', 'VERIF_DEPTH': '4'}), ('', {})]
+    apidrive.run_seq('C10', tier, 'TestVerifC10', ASSUME, RULE, variants=variants)
 
 def replay(path):
     import subprocess
